@@ -123,6 +123,9 @@ class BuiltinMixin:
             if isinstance(v, SDict):
                 return pyty is dict
             return isinstance(v, pyty)
+        if isinstance(c, Extern) and c.dotted.endswith("LocalFileSystem"):
+            if isinstance(v, SV) and isinstance(v.ty, TRef) and v.ty.field_owner("is_local"):
+                return self.heap_get(v, "is_local")
         if isinstance(c, ClassVal):
             if isinstance(v, SV) and isinstance(v.ty, TRec):
                 return v.ty.name == c.cdef.name
@@ -395,6 +398,8 @@ class BuiltinMixin:
             selfv = lift(selfv)
         if isinstance(selfv, SV):
             ty = selfv.ty
+            if isinstance(ty, TRec) and getattr(ty, "dictlike", False):
+                return self.dictrec_method(selfv, name, args, kwargs, node)
             if ty == TStr:
                 return specfn.str_method(self, selfv, name, args, kwargs, node)
             if ty == TBytes:
@@ -416,6 +421,23 @@ class BuiltinMixin:
                 if name == "copy":
                     return selfv
         raise Unsupported(f"method {name} of {selfv!r}")
+
+    def dictrec_method(self, d, name, args, kwargs, node):
+        """dict API of a record that models a dict with a known set of string keys (every field optional)"""
+        ty = d.ty
+        if name == "get":
+            k = args[0]
+            default = args[1] if len(args) > 1 else None
+            if not isinstance(k, str):
+                raise Unsupported("dict-like record .get with a symbolic key")
+            if k not in ty.fields:
+                self.res.drops.add(f"key {k!r} of {ty.name} is not modelled: treated as absent")
+                return default
+            v = ty.get(d, k)
+            if default is None:
+                return v
+            return SV(z3.If(v.ty.is_some(v).t, v.ty.val(v).t, lift(default, v.ty.elem).t), v.ty.elem)
+        raise Unsupported(f"{ty.name}.{name}")
 
     def _rebind(self, self_expr, new, node):
         if self_expr is None:
